@@ -60,12 +60,17 @@ class UnitsAdapter(Adapter):
             x = self.rng.uniform(0.05, 3.0, 7)
         d = 1.25
         before = (str(uc.dc.to_base_units()), str(uc.ec.to_base_units()))
+        x0 = np.array(x, dtype=float)           # the argument as the caller sees it before the call
         try:
-            ret = getattr(uc, m)(x, d) if m == 'toVolumeFraction' else getattr(uc, m)(np.array(x) if ak == 'array' else x)
+            ret = getattr(uc, m)(x, d) if m == 'toVolumeFraction' else getattr(uc, m)(x)
+            again = None
+            if ak == 'array':
+                # the same array converted a second time (users convert Domain.k to several units)
+                again = getattr(uc, m)(x, d) if m == 'toVolumeFraction' else getattr(uc, m)(x)
         except Exception as ex:
             return {'raises': '%s: %s' % (type(ex).__name__, str(ex)[:160])}
         env = dict(SI)
-        env.update({'x': np.asarray(x, dtype=float), 'd': d, 'dc': self.dc, 'ec': w['ecv']})
+        env.update({'x': x0, 'd': d, 'dc': self.dc, 'ec': w['ecv']})
         for k, t in l['unitenv'].items():
             env[k] = float(termeval.ev(t, {}))
         want = np.asarray(termeval.ev(l['magnitude'], env), dtype=float)
@@ -90,6 +95,12 @@ class UnitsAdapter(Adapter):
                 bad.append(('Unit.%s' % m, dict(det, expected=l['unit'], observed=str(ret.units))))
         except Exception as ex:
             bad.append(('Unit.%s' % m, dict(det, expected=l['unit'], observed=str(getattr(ret, 'units', '?')), error=str(ex)[:100])))
+        if ak == 'array':
+            if not np.array_equal(np.asarray(x, dtype=float), x0):
+                bad.append(('ArgumentUnmodified.%s' % m, dict(det, detail='the array handed to the conversion was changed in place')))
+            g2 = np.asarray(getattr(again, 'magnitude', np.nan), dtype=float)
+            if g2.shape != want.shape or not np.allclose(g2, want, rtol=1e-9, atol=0):
+                bad.append(('Magnitude.%s.second_call' % m, dict(det, detail='converting the same array again gives another result')))
         if before != (str(uc.dc.to_base_units()), str(uc.ec.to_base_units())):
             bad.append(('CallsArePure', det))
         return {'raises': 'none', '_bad': bad}
